@@ -86,6 +86,7 @@ def truth_and_candidate(rng, grid):
     if g == "CartesianGrid" and rng.random() < 0.12:
         # a candidate whose sphere covers no cell centre (sub-resolution, sitting on a cell corner): nothing to fit
         dR = 0.04 * min(grid.discretization)
+        cls = rng.choice(["SphericalDroplet", "SphericalDroplet", cls])  # the promotion must happen on this path too
         dpos = np.array([b[0] + grid.discretization[a] * rng.randrange(1, grid.shape[a]) for a, b in enumerate(grid.axes_bounds)])
     if cls == "SphericalDroplet":
         cand = D.SphericalDroplet(dpos, dR)
